@@ -1,6 +1,6 @@
 /-
   Driver for C27.  One program per line:
-    prog <mode> <bufsize> <dflt> <maxreq> <trunczero 0|1> <init-hex | absent> <op>*
+    prog <mode> <bufsize> <dflt> <maxreq> <trunczero 0|1> <server-file-buffered 0|1> <init-hex | absent> <op>*
   ops: r:<int>|r:N  l:<int>|l:N  L:<int>|L:N  w:<hex>  s:<off>:<whence>  t  f  T:<size>  c
   reply:  <model-open> ; <model tokens> ; <spec-open> ; <spec tokens> ; <tags> ; <model content> ; <spec content> ;
           pos=<int> realpos=<int> rbuf=<hex> wbuf=<hex> closed=<0|1>
@@ -82,13 +82,13 @@ def progLines (ws : List (String × PV.Props.C27.Prog)) : String :=
 
 def step' (line : String) : String :=
   match words line with
-  | "prog" :: mode :: bufsize :: dflt :: maxreq :: tz :: init :: ops =>
+  | "prog" :: mode :: bufsize :: dflt :: maxreq :: tz :: rb :: init :: ops =>
     let fs : Option (Option Bytes) := if init == "absent" then some none else (ofHex? init).map some
     match intOfString? bufsize, dflt.toNat?, maxreq.toNat?, fs, ops.mapM parseOp with
     | some bs, some dflt, some maxreq, some fs, some ops =>
       let o := sftpOps maxreq
       let mpart :=
-        match sftpOpen fs mode.toList bs dflt (tz == "1") with
+        match sftpOpen fs mode.toList bs dflt (tz == "1") (rb == "1") with
         | none => ("E", "", "", fs.map toHexTok |>.getD "absent", "")
         | some f0 =>
           let (f, rs) := srun o f0 ops
